@@ -6,6 +6,12 @@ def dispatch (name : String) (a : Array Float) (b : Array Bool) : Option (List F
   match name with
   | "stokes_q" => if a.size = 1 ∧ b.size = 0 then some ([(stokes_q (α := Float) a[0]!)]) else none
   | "stokes_u" => if a.size = 1 ∧ b.size = 0 then some ([(stokes_u (α := Float) a[0]!)]) else none
+  | "calculate_polarization" => if a.size = 5 ∧ b.size = 1 then some (let r := (calculate_polarization (α := Float) a[0]! a[1]! a[2]! a[3]! a[4]! b[0]!); [r.1, r.2.1, r.2.2.1, r.2.2.2]) else none
+  | "calculate_stokes_errors" => if a.size = 5 ∧ b.size = 0 then some (let r := (calculate_stokes_errors (α := Float) a[0]! a[1]! a[2]! a[3]! a[4]!); [r.1, r.2.1, r.2.2.1, r.2.2.2.1, r.2.2.2.2.1, r.2.2.2.2.2.1, r.2.2.2.2.2.2.1, r.2.2.2.2.2.2.2.1, r.2.2.2.2.2.2.2.2.1, r.2.2.2.2.2.2.2.2.2]) else none
+  | "calculate_mdp99" => if a.size = 3 ∧ b.size = 1 then some ([(calculate_mdp99 (α := Float) a[0]! a[1]! a[2]! b[0]!)]) else none
+  | "calculate_n_eff" => if a.size = 3 ∧ b.size = 0 then some (let r := (calculate_n_eff (α := Float) a[0]! a[1]! a[2]!); [r.1, r.2]) else none
+  | "weighted_average" => if a.size = 4 ∧ b.size = 1 then some ([(weighted_average (α := Float) a[0]! a[1]! a[2]! a[3]! b[0]!)]) else none
+  | "lc_iadd" => if a.size = 6 ∧ b.size = 0 then some (let r := (lc_iadd (α := Float) a[0]! a[1]! a[2]! a[3]! a[4]! a[5]!); [r.1, r.2.1, r.2.2]) else none
   | "align_stokes_parameters" => if a.size = 4 ∧ b.size = 0 then some (let r := (align_stokes_parameters (α := Float) a[0]! a[1]! a[2]! a[3]!); [r.1, r.2]) else none
   | "delta_phi_ampl" => if a.size = 4 ∧ b.size = 0 then some ([(delta_phi_ampl (α := Float) a[0]! a[1]! a[2]! a[3]!)]) else none
   | "delta_phi_stokes" => if a.size = 3 ∧ b.size = 0 then some ([(delta_phi_stokes (α := Float) a[0]! a[1]! a[2]!)]) else none
